@@ -79,10 +79,6 @@ theorem rcBody_num (q : String) (s : State F) (fuel : Nat) (ty : Int)
     exec fuel (rcBody .num q) s = { s with ienv := rcEnv q s ty, ctl := .ret } :=
   (rcBody_exec .num q s fuel hs ty ⟨h1, hz, ho⟩).2 h0
 
-theorem list7 {α} (l : List α) (h : l.length = 7) : ∃ e0 e1 e2 e3 e4 e5 e6, l = [e0, e1, e2, e3, e4, e5, e6] := by
-  match l, h with
-  | [a, b, c, d, e, f, g], _ => exact ⟨a, b, c, d, e, f, g, rfl⟩
-
 set_option hygiene false in
 /-- the proof of `ElevCallSpec` for one inlined copy (the prefix of its `_calculate_event_row_col` and the event code) -/
 macro "elev_call_proof" q:str ty:term : tactic => `(tactic| (
